@@ -140,3 +140,11 @@ void sweep_b64_dec() {
       if (L == 5 && p == 2) sample("base64 hostile: every truncation / A20 substitution of \"" + enc + "\" and all strings of length<=4, caps{DecodeLength,-1,0,max}"); } }
 }
 
+
+// alignment sweep (see common.h, struct Ex): the small-length part of both Base64 sweeps at the active buffer start offsets
+void align_b64() {
+  for_small_inputs(40, b64_roundtrip_one);
+  for_small_hostile(thorough() ? 4 : 3, b64_hostile_one);
+  for (size_t L = 1; L <= 9 && !g_capped; L++) for (int p = 2; p <= 4; p += 2) { std::vector<uint8_t> v = pattern(p, L); std::string enc = ref_b64enc(v.data(), L);
+    for_derived(enc, [](const uint8_t *q, size_t n) { align_case_begin(); b64_hostile_one(q, n); }); }
+}
